@@ -91,6 +91,13 @@ Theorem C18_by_page_bounded : forall h index size r,
             (forall x, In x l -> 1 <= x <= h /\ h - (index + 1) * size < x <= h - index * size).
 Proof. exact by_page_bounded. Qed.
 
+(* the wrapping top index answers empty although its interval holds heights once the chain exceeds (2^32-1)*size momentums
+   (not reachable: > 2^32 momentums); the completeness theorem above is therefore stated for k < 2^32 pages *)
+Theorem C18_by_page_top_index_incomplete_refuted :
+  exists h size, 0 < h < two63 - 1 /\ 0 < size <= RpcMaxPageSize /\ 0 < h - (two32 - 1) * size /\
+    acc_by_page h (two32 - 1) size = (0, [], h) /\ mom_by_page h (two32 - 1) size = (0, [], h).
+Proof. exact by_page_top_index_incomplete_refuted. Qed.
+
 (* reward / pillar-history pagers: page `index` is the epochs (last-(index+1)*size, last-index*size] clipped at 0, descending *)
 Theorem C18_epoch_page_exact : forall last index size,
   -1 <= last < two63 / 2 -> in_u32 index -> 0 <= size <= RpcMaxPageSize ->
